@@ -170,8 +170,12 @@ def execute_guarded(prop, record, timeout=None):
         signal.signal(signal.SIGALRM, old)
 
 
-def _worker_batch(pid, base_seed, tier, indices, want_samples):
+def _worker_batch(pid, base_seed, tier, indices, want_samples, records=None):
+    """indices: run indices to generate+execute; records: already materialised
+    (index, record) pairs from the property's deterministic enumeration."""
     prop = load_prop(pid)
+    given = dict(records or [])
+    indices = list(indices) + sorted(given)
     out = {
         'n': 0, 'viol': [], 'digests': [], 'probes': {}, 'faults_fired': {},
         'faults_configured': {}, 'states': set(), 'sim_time': 0.0, 'steps': 0,
@@ -180,7 +184,11 @@ def _worker_batch(pid, base_seed, tier, indices, want_samples):
     for i in indices:
         seed = run_seed(pid, base_seed, i)
         try:
-            record = prop.generate(seed, tier)
+            if i in given:
+                record = given[i]
+                seed = record.get('seed', seed)
+            else:
+                record = prop.generate(seed, tier)
             record['index'] = i
             res = execute_guarded(prop, record)
         except _RunTimeout:
@@ -190,6 +198,8 @@ def _worker_batch(pid, base_seed, tier, indices, want_samples):
             out['errors'].append({'index': i, 'seed': seed, 'error': traceback.format_exc()[-2000:]})
             continue
         out['n'] += 1
+        out['sub_n'] = out.get('sub_n', 0) + res.get('sub_evaluations', 0)
+        out['sub_distinct'] = out.get('sub_distinct', 0) + res.get('sub_distinct', 0)
         out['logdig'][i] = res['log_digest']
         if res['nontrivial']:
             out['digests'].append(int(res['digest'][:16], 16) if isinstance(res['digest'], str) else res['digest'])
@@ -383,7 +393,7 @@ STATE_CAP = 2000000
 
 def run_check(pid, tier, base_seed, runs=None, workers=None, wall_cap=None):
     prop = load_prop(pid)
-    t0 = time.time()
+    t0 = time.monotonic()
     meta = prop.META
     print('VERIF_SEED=%d property=%s tier=%s repo=%s' % (base_seed, pid, tier, REPO))
     sys.stdout.flush()
@@ -401,9 +411,6 @@ def run_check(pid, tier, base_seed, runs=None, workers=None, wall_cap=None):
     samples, errors, viols = [], [], []
     saturated = False
     capped = False
-    extra = {}
-
-    # deterministic extra stage (exhaustive sweeps etc.) the property may define
     batches = [list(range(s, min(s + batch, runs))) for s in range(0, runs, batch)]
     ctx = multiprocessing.get_context('fork')
     ex = ProcessPoolExecutor(max_workers=workers, mp_context=ctx)
@@ -411,21 +418,24 @@ def run_check(pid, tier, base_seed, runs=None, workers=None, wall_cap=None):
         futs = {}
         for bi, b in enumerate(batches):
             futs[ex.submit(_worker_batch, pid, base_seed, tier, b, 2 if bi < 4 else 0)] = b
-        sweep_futs = {}
-        if hasattr(prop, 'sweep_tasks'):
-            for task in prop.sweep_tasks(base_seed, tier):
-                sweep_futs[ex.submit(_sweep_worker, pid, task)] = task
-        pending = set(futs) | set(sweep_futs)
+        n_enum = 0
+        if hasattr(prop, 'enumerate_cases'):
+            cases = prop.enumerate_cases(base_seed, tier)
+            n_enum = len(cases)
+            ebatch = meta.get('enum_batch', {}).get(tier, batch)
+            for s0 in range(0, len(cases), ebatch):
+                recs = [(runs + j, cases[j]) for j in range(s0, min(s0 + ebatch, len(cases)))]
+                futs[ex.submit(_worker_batch, pid, base_seed, tier, [], 1 if s0 == 0 else 0, recs)] = recs
+        pending = set(futs)
         for fut in as_completed(pending, timeout=wall_cap + 600):
             try:
                 out = fut.result()
             except Exception:
                 errors.append({'error': 'worker died: ' + traceback.format_exc()[-1500:]})
                 continue
-            if fut in sweep_futs:
-                _merge_sweep(extra, out, viols, errors)
-                continue
             agg['n'] += out['n']
+            agg['sub_n'] = agg.get('sub_n', 0) + out.get('sub_n', 0)
+            agg['sub_distinct'] = agg.get('sub_distinct', 0) + out.get('sub_distinct', 0)
             for k in ('probes', 'faults_fired', 'faults_configured'):
                 for name, v in out[k].items():
                     agg[k][name] = agg[k].get(name, 0) + v
@@ -442,7 +452,7 @@ def run_check(pid, tier, base_seed, runs=None, workers=None, wall_cap=None):
             samples.extend(out['samples'])
             errors.extend(out['errors'])
             viols.extend(out['viol'])
-            if time.time() - t0 > wall_cap:
+            if time.monotonic() - t0 > wall_cap:
                 capped = True
                 for f in pending:
                     f.cancel()
@@ -509,14 +519,18 @@ def run_check(pid, tier, base_seed, runs=None, workers=None, wall_cap=None):
         status = EXIT_HARNESS
         lines.append('HARNESS-ERROR no run executed')
 
-    wall = time.time() - t0
+    wall = time.monotonic() - t0
     cov = {
-        'evaluations': agg['n'] + extra.get('evaluations', 0),
-        'distinct_nontrivial': len(digests) + extra.get('distinct_nontrivial', 0),
+        'evaluations': agg['n'] + agg.get('sub_n', 0),
+        'distinct_nontrivial': len(digests) + agg.get('sub_distinct', 0),
+        'records_executed': agg['n'],
+        'dense_sweep_cases': agg.get('sub_n', 0),
+        'dense_sweep_distinct': agg.get('sub_distinct', 0),
         'rule': meta['rule'],
-        'samples': samples[:3] + extra.get('samples', [])[:2],
+        'samples': samples[:4],
         'exhaustive': False,
         'runs_requested': runs,
+        'enumerated_cases': n_enum,
         'runs_executed': agg['n'],
         'runs_per_hour': int(agg['n'] / wall * 3600) if wall > 0 else 0,
         'seeds': {'verif_seed': base_seed, 'first_index': 0, 'last_index': runs - 1,
@@ -534,9 +548,6 @@ def run_check(pid, tier, base_seed, runs=None, workers=None, wall_cap=None):
         'violation_signatures': reported,
         'workers': workers,
     }
-    for k, v in extra.items():
-        if k not in ('evaluations', 'distinct_nontrivial', 'samples'):
-            cov[k] = v
     zero = sorted(k for k, v in agg['probes'].items() if v == 0)
     for name in meta.get('probe_names', []):
         if agg['probes'].get(name, 0) == 0 and name not in zero:
@@ -562,30 +573,3 @@ def run_check(pid, tier, base_seed, runs=None, workers=None, wall_cap=None):
           % (pid, tier, cov['evaluations'], cov['distinct_nontrivial'], len(states),
              len(reported), len(known_hit), wall, status))
     return status
-
-
-def _sweep_worker(pid, task):
-    prop = load_prop(pid)
-    try:
-        return prop.run_sweep(task)
-    except Exception:
-        return {'errors': [{'task': task, 'error': traceback.format_exc()[-2000:]}]}
-
-
-def _merge_sweep(extra, out, viols, errors):
-    errors.extend(out.get('errors', []))
-    viols.extend(out.get('viol', []))
-    for k, v in out.get('coverage', {}).items():
-        if isinstance(v, (int, float)) and not isinstance(v, bool):
-            extra[k] = extra.get(k, 0) + v
-        elif isinstance(v, list):
-            extra.setdefault(k, []).extend(v)
-        elif isinstance(v, dict):
-            d = extra.setdefault(k, {})
-            for kk, vv in v.items():
-                if isinstance(vv, (int, float)):
-                    d[kk] = d.get(kk, 0) + vv
-                else:
-                    d[kk] = vv
-        else:
-            extra[k] = v
